@@ -25,7 +25,8 @@ RULE = (
     "otherwise InvalidMosCollection; after acceptance mc.ro.message_id is the roCreate's, mc.ro is a "
     "RunningOrder, and the reader IDs are the remaining IDs in ascending order; identical outcomes "
     "across the three interpreter configurations.  Non-trivial = anything but a plain valid list "
-    "under the default interpreter: a count >= 2 or == 0, mixed IDs, the empty list, or -O/-OO.")
+    "under the default interpreter: a count >= 2 or == 0, mixed IDs, the empty list, or -O/-OO."
+    ' Round 11: different documents sharing a messageID (with the roCreate, with each other, with the roDelete) from strings, files and the paged fake bucket: all of them stay in the collection.')
 ASSUMPTIONS = ['message IDs are distinct, except that the same document may be listed twice', 'each document is individually classifiable']
 MANDATORY = ['source:s3', 'source:readers-twice', 'blank-roID-among-others', 'same-document-twice', 'source:files', 'completed-roCreate', 'flags:-O', 'flags:-OO', 'empty-list', 'two-roCreates', 'two-roDeletes', 'no-roCreate',
              'mixed-ids', 'valid-complete', 'valid-incomplete-allowed', 'incomplete-not-allowed',
